@@ -137,6 +137,22 @@ def explore(chk):
         chk.case(key=("groups", json.dumps([la, lb])), nontrivial=True); chk.count("vtt_groups")
         if len(tl) != (1 if same else 2) or len(set(l.split(" ")[0] + l.split(" ")[2] for l in tl)) != 1:
             chk.property_failure({"layouts": [la, lb], "output": doc}, "webvtt: nodes with different layouts are not written as separate cues with the same times")
+        # a node with its own layout followed by a node without one: the second falls back to the caption's (or the language's) layout
+        lc = mk_layout_desc(rng, True)
+        level = rng.choice(["caption", "lang"])
+        nodes2 = [["T", "one", la], ["B"], ["T", "two"]]
+        d2 = {"langs": [{"lang": "en-US", "layout": lc if level == "lang" else None,
+                         "caps": [{"start": 1000000, "end": 2000000, "nodes": nodes2, "layout": lc if level == "caption" else None}]}]}
+        def ref_settings(layout_desc):
+            one = {"langs": [{"lang": "en-US", "caps": [{"start": 1000000, "end": 2000000, "nodes": [["T", "x"]], "layout": layout_desc}]}]}
+            return [l for l in pycaption.WebVTTWriter().write(setbuild.build(one)).split("\n") if "-->" in l][0].split(" ", 3)[3:]
+        doc2 = pycaption.WebVTTWriter().write(setbuild.build(d2))
+        tl2 = [l.split(" ", 3)[3:] for l in doc2.split("\n") if "-->" in l]
+        chk.case(key=("fallback", json.dumps([la, lc, level])), nontrivial=True); chk.count("vtt_layout_fallback")
+        if geo.obs_layout(setbuild.mk_layout(la)) != geo.obs_layout(setbuild.mk_layout(lc)):
+            if tl2 != [ref_settings(la), ref_settings(lc)]:
+                chk.property_failure({"set": d2, "output": doc2, "cue_settings": tl2, "spec": [ref_settings(la), ref_settings(lc)]},
+                                     "webvtt: a text node without a layout of its own is not written with its caption's / language's layout")
         raw = rng.choice(["line:10% align:left", "position:5%,line-left size:40%", "vertical:rl", "align:center line:-2"])
         src = "WEBVTT\n\n00:01.000 --> 00:02.000 %s\nhi\n" % raw
         back = pycaption.WebVTTWriter().write(pycaption.WebVTTReader().read(src))
@@ -158,32 +174,38 @@ def explore(chk):
         if got != want:
             chk.property_failure({"set": desc, "options": opts, "reused_writer": got, "fresh_writer": want, "document_index_on_this_writer": k},
                                  "webvtt: cue settings written by a reused writer object differ from a fresh writer's (layout carried over from an earlier document)")
-    # ---------------- DFXP round trip: effective layout per visible character
+    # ---------------- DFXP round trip: effective layout per visible character (1-3 languages, each with its own layout or none)
+    LANGS = ["en-US", "fr-FR", "de-DE"]
     for _ in range(150 if chk.tier == "quick" else 5000):
         opts = rng.choice([{}, {"fit_to_screen": False}, {"relativize": False, "fit_to_screen": False}])
-        lang_l = mk_layout_desc(rng) if rng.random() < 0.4 else None
-        caps = []
         feature = False
         bare = []
-        for k in range(rng.randint(1, 3)):
-            cap_l = mk_layout_desc(rng) if rng.random() < 0.6 else None
-            nodes = []
-            for j in range(rng.randint(1, 2)):
-                if j:
-                    nodes.append(["B"])
-                nl = mk_layout_desc(rng) if rng.random() < 0.25 else None
-                if nl is not None and rng.random() < 0.2:
-                    nodes.append(["T", "w%d%d" % (k, j), nl]); feature = True; bare.append("w%d%d" % (k, j))      # a bare text node with its own layout
-                elif nl is not None:
-                    # a node-level layout is carried by a styled span around the text
-                    nodes.append(["S", True, {"italics": True}, nl]); nodes.append(["T", "w%d%d" % (k, j), nl]); nodes.append(["S", False, {"italics": True}, nl])
-                else:
-                    nodes.append(["T", "w%d%d" % (k, j)])
-            caps.append({"start": (2 * k + 1) * 1000000, "end": (2 * k + 2) * 1000000, "nodes": nodes, "layout": cap_l})
-        desc = {"langs": [{"lang": "en-US", "layout": lang_l, "caps": caps}]}
+        langs_desc = []
+        for li in range(rng.choice([1, 1, 2, 3])):
+            lang_l = mk_layout_desc(rng) if rng.random() < 0.5 else None
+            caps = []
+            for k in range(rng.randint(1, 3)):
+                cap_l = mk_layout_desc(rng) if rng.random() < 0.5 else None
+                nodes = []
+                for j in range(rng.randint(1, 2)):
+                    if j:
+                        nodes.append(["B"])
+                    nl = mk_layout_desc(rng) if rng.random() < 0.25 else None
+                    word = "w%d%d%d" % (li, k, j)
+                    if nl is not None and rng.random() < 0.2:
+                        nodes.append(["T", word, nl]); feature = True; bare.append(word)      # a bare text node with its own layout
+                    elif nl is not None:
+                        # a node-level layout is carried by a styled span around the text
+                        nodes.append(["S", True, {"italics": True}, nl]); nodes.append(["T", word, nl]); nodes.append(["S", False, {"italics": True}, nl])
+                    else:
+                        nodes.append(["T", word])
+                caps.append({"start": (2 * k + 1) * 1000000, "end": (2 * k + 2) * 1000000, "nodes": nodes, "layout": cap_l})
+            langs_desc.append({"lang": LANGS[li], "layout": lang_l, "caps": caps})
+        desc = {"langs": langs_desc}
         cs = setbuild.build(desc)
         case = {"set": desc, "options": opts, "feature_text_node_own_layout": feature, "bare_layout_texts": bare}
         chk.case(key=json.dumps(case, sort_keys=True), nontrivial=True, sample=case if chk.count_get("dfxp") == 3 else None); chk.count("dfxp")
+        chk.count("dfxp_langs_%d" % len(langs_desc))
         try:
             doc = pycaption.DFXPWriter(**opts).write(cs)
             back = pycaption.DFXPReader().read(doc)
@@ -191,7 +213,7 @@ def explore(chk):
             chk.property_failure(dict(case, error=repr(e)[:300]), "dfxp write/read raised on percentage layouts"); continue
         from pycaption.base import BaseWriter
         bw = BaseWriter(**opts)
-        def eff(node_l, cap_l):
+        def eff(node_l, cap_l, lang_l):
             l = None
             if node_l is not None:
                 l = bw._relativize_and_fit_to_screen(setbuild.mk_layout(node_l))
@@ -204,27 +226,32 @@ def explore(chk):
             o = geo.obs_layout(l) if l is not None else (None, None, None, None, None)
             al = o[3] or (None, None)
             return (o[0], o[1], o[2], ((al[0] if al[0] not in (None, "N") else "start"), (al[1] if al[1] not in (None, "N") else "bottom")))
+        def close(a, b_):
+            if a is None or b_ is None:
+                return a is None and b_ is None
+            return all(u1 == u2 and abs(Fraction(v1) - Fraction(v2)) <= Fraction(1, 100) for (v1, u1), (v2, u2) in zip(a, b_))
         ok = True
-        rcaps = back.get_captions("en-US")
-        if len(rcaps) != len(caps):
-            chk.property_failure(dict(case, output=doc[:2000]), "dfxp round trip changed the number of captions"); continue
-        for c, rc in zip(caps, rcaps):
-            texts = [n for n in c["nodes"] if n[0] == "T"]
-            rtexts = [n for n in rc.nodes if n.type_ == 1]
-            if len(texts) != len(rtexts):
-                ok = False; break
-            for n, rn in zip(texts, rtexts):
-                want = with_defaults(eff(n[2] if len(n) > 2 else None, c.get("layout")))
-                got = with_defaults(rn.layout_info)
-                got = (got[0], got[1], got[2], got[3])
-                def close(a, b_):
-                    if a is None or b_ is None:
-                        return a is None and b_ is None
-                    return all(u1 == u2 and abs(Fraction(v1) - Fraction(v2)) <= Fraction(1, 100) for (v1, u1), (v2, u2) in zip(a, b_))
-                if not (close(want[0], got[0]) and close(want[1], got[1]) and close(want[2], got[2]) and want[3] == got[3]):
-                    chk.property_failure(dict(case, text=n[1], effective_before=str(want), effective_after=str(got), output=doc[:2500]),
-                                         "dfxp round trip: the effective layout of a character changed")
+        if back.get_languages() != [L["lang"] for L in langs_desc]:
+            chk.property_failure(dict(case, languages=back.get_languages(), output=doc[:2000]), "dfxp round trip changed the languages"); continue
+        for L in langs_desc:
+            caps = L["caps"]
+            rcaps = back.get_captions(L["lang"])
+            if len(rcaps) != len(caps):
+                chk.property_failure(dict(case, language=L["lang"], output=doc[:2000]), "dfxp round trip changed the number of captions"); ok = False; break
+            for c, rc in zip(caps, rcaps):
+                texts = [n for n in c["nodes"] if n[0] == "T"]
+                rtexts = [n for n in rc.nodes if n.type_ == 1]
+                if len(texts) != len(rtexts):
                     ok = False; break
+                for n, rn in zip(texts, rtexts):
+                    want = with_defaults(eff(n[2] if len(n) > 2 else None, c.get("layout"), L.get("layout")))
+                    got = with_defaults(rn.layout_info)
+                    if not (close(want[0], got[0]) and close(want[1], got[1]) and close(want[2], got[2]) and want[3] == got[3]):
+                        chk.property_failure(dict(case, language=L["lang"], text=n[1], effective_before=str(want), effective_after=str(got), output=doc[:2500]),
+                                             "dfxp round trip: the effective layout of a character changed")
+                        ok = False; break
+                if not ok:
+                    break
             if not ok:
                 break
 
